@@ -77,7 +77,7 @@ func init() {
 			"Non-trivial: the history has >= 2 mutating calls. Distinct: by hash of the plan JSON.",
 		NonTrivial:      func(c *engine.RunCtx) bool { return c.HistoryLen >= 2 },
 		DeathInvariant:  builderRaceDeath,
-		QuickRuns:       600,
+		QuickRuns:       320,
 		ThoroughSeconds: 240,
 		Real:            []string{"github.com/openacid/low/bitmap (NewBuilder, Builder.Extend, Builder.Set, Of, OfMany, ToArray, Get, Get1, SafeGet, SafeGet1) compiled with -race", "Go race detector (ThreadSanitizer) used as an oracle for goroutines the code under test may start"},
 		Stub:            commonStub,
